@@ -342,6 +342,10 @@ func (b *Builder) V1Pay() bool {
 	txn.SiacoinOutputs = b.outputsFor("v1pay", new(big.Int).Sub(total, feeSum), true)
 	if rapid.IntRange(0, 3).Draw(b.T, "v1arb") == 0 {
 		txn.ArbitraryData = [][]byte{rapid.SliceOfN(rapid.Byte(), 0, 40).Draw(b.T, "arb")}
+		for k := rapid.IntRange(0, 2).Draw(b.T, "arbMore"); k > 0; k-- {
+			// several entries: their boundaries are signed content too
+			txn.ArbitraryData = append(txn.ArbitraryData, rapid.SliceOfN(rapid.Byte(), 0, 12).Draw(b.T, "arbEntry"))
+		}
 	}
 	b.label("v1-pay")
 	b.finishV1(txn)
